@@ -330,7 +330,8 @@ def run(prop, args, seed, t0):
     for r in results:
         st = r["status"]
         bad = [o for o in r["obligations"] if o["verdict"] not in ("discharged", "reachable")]
-        print(f"  {r['unit']:<40} {st:<12} {len(r['obligations'])-len(bad)}/{len(r['obligations'])} {r['wall_s']}s")
+        second = f"  (second attempt; first: {r['first_attempt']['status']}: {r['first_attempt']['reason'][-160:]})" if r.get("first_attempt") else ""
+        print(f"  {r['unit']:<40} {st:<12} {len(r['obligations'])-len(bad)}/{len(r['obligations'])} {r['wall_s']}s{second}")
         for o in bad:
             print(f"      {o['verdict']}: {o['name']}  model={json.dumps(o.get('model'), default=str)[:240] if o.get('model') else None}")
     if violation_lines:
